@@ -30,7 +30,7 @@ ALLOW_UNCONSTRAINED = {
     "ctor.log", "ctor.bs", "ctor.l1", "ctor.l2", "ctor.a", "ctor.b", "ctor.obs.*", "ctor.uobs.*",
     "tinit.via", "tobs.t", "pctor.len_after", "pctor.bad_at", "pctor.len", "pobs.p", "tinit.t", "tfrom.t", "tnew.t", "pinit.p", "pnew.p", "pclear.p",
     "bsvalid.swept", "cap.border", "fnvinit.states",
-    "stream.n", "file.what", "file.meta", "file.delivered",
+    "stream.n", "stream.bl", "file.what", "file.meta", "file.delivered",
     "fin.probe.*", "ctor.fn", "ctor.T", "cap.n", "stream.r.id", "stream.r.kind", "file.r.id", "file.r.kind",
     # INPUT fields: the recorded outputs may by coincidence also be right for the corrupted input
     # (e.g. changing one symbol of a string that shares no 7-gram anyway)
